@@ -20,8 +20,16 @@ PROPERTIES = {
               'alignment pads with <4 zero bytes, checked usize->uN length writers. Partial: the retry loop of write_code, pool de-duplication and attribute emitters are not under contract.',
         note='Trusted: Verus+Z3; extraction rewrites; Vec<u8> sink model (write_all appends, never fails); to_be_bytes stubs; obeys_key_model::<Label>(); ordered LabelRange precondition.',
         out=['write_code retry loop and instruction match (closure)', 'duke/src/simple_class_writer/pool.rs PoolWrite::put (HashMap::entry)', 'attribute emitters']),
+    'C04': dict(
+        level='proof', verus=['adiff'], kani=[],
+        technique=VERUS_TECH,
+        claim='Unbounded proof, for the functions under contract only: apply_diff_option equals the spec table of the property (None keeps, Add only onto absent, Remove/Edit only when the stated old value matches, every other combination refused), '
+              'Action::{from_tuple,to_tuple,flip,is_diff} equal their algebraic specs, and the lemmas from_tuple/to_tuple isomorphism, flip involution and apply(diff(a,b),a)=b hold for all values of all types. '
+              'Partial: the map level (apply_diff_map / zip over IndexMap) and the text form are not under contract.',
+        note='Trusted: Verus+Z3; extraction rewrites (Debug bound removed, error text dropped); T::obeys_eq_spec() (PartialEq::eq agrees with its spec) and cloned(b,x) as the meaning of Clone.',
+        out=['quill/src/action/apply_diff.rs apply_diff_map and callers (IndexMap)', 'quill/src/action/diff_mappings.rs', 'quill/src/tiny_v2_diff.rs']),
     'C16': dict(
-        level='proof', verus=['rlabels', 'cwrite', 'wjump', 'rskip', 'rbranch'], kani=[],
+        level='proof', verus=['rlabels', 'cwrite', 'wjump', 'rskip', 'rbranch', 'adiff'], kani=[],
         technique=VERUS_TECH + ': implicit safety obligations (overflow, index, unwrap, unreachable, termination)',
         claim='Unbounded proof of panic-freedom and termination for every function extracted for the other properties (Verus generates no-overflow, in-bounds, no-failing-unwrap, unreachable!() unreachable, decreases obligations for each). '
               'Partial: text parsers built on Peekable<Chars>/BufRead are outside the verifier and not covered.',
@@ -45,7 +53,6 @@ NOT_APPLICABLE = {
     'C14': 'string surgery on JavaString + IndexMap recursion + jar I/O; the claim relates two whole-program transformations',
     'C15': 'code lives in the binary crate (tokio/reqwest/zip dependency closure not compilable by Kani), predicates over IndexMap/IndexSet graphs',
     # not yet built in this session (moved to claimed checks as they are built):
-    'C04': 'not yet built (planned: Verus apply_diff_option/Action + Kani twins)',
     'C06': 'not yet built (planned: bounded Kani map_desc)',
     'C08': 'not yet built (planned: Kani-complete Names::reorder)',
     'C09': 'not yet built (planned: Kani-complete merge_names)',
